@@ -154,16 +154,21 @@ MALFORMED = ['P2SH', 'p2sh', '+p2sh', '+P2SHH', '+P2S', '+', '-', ',', '+P2SH,',
              '+' + 'A' * 126, '+' + 'A' * 127, '+' + 'A' * 128, '+' + 'A' * 200, '+P2SH,+' + 'B' * 300, '-' + 'P2SH' * 40]
 
 
+# a flag modification that never reaches the flags because the option itself is misspelled / incomplete: running the script under the UNMODIFIED
+# set instead would be the opposite of "the effective set is exactly the modified one" - it has to be refused like a malformed list
+BAD_OPTIONS = [['--modify-flgs=-MINIMALDATA'], ['--modifyflags=-MINIMALDATA'], ['-F-MINIMALDATA'], ['--modify-flags'], ['-f']]
+
+
 def check_malformed(text, ctx):
-    ctx.case('malformed:' + text, True, dict(list=text[:80], length=len(text)), 'malformed')
-    r = cli.run(cli.binpath('btcdeb'), ['--modify-flags=' + text], stdin=b'0x51\n')
+    ctx.case('malformed:' + repr(text), True, dict(list=text[:80], length=len(text)) if isinstance(text, str) else dict(argv=text), 'malformed')
+    r = cli.run(cli.binpath('btcdeb'), ['--modify-flags=' + text] if isinstance(text, str) else list(text), stdin=b'0x4c0107\n')
     if r.timed_out:
         ctx.inconclusive += 1
         return
     if r.abnormal:
         raise Violation(text, 'malformed flag list (%d chars) makes btcdeb terminate abnormally: %s' % (len(text), r.abnormal), observed=repr(r))
     if r.rc != 1 or not r.err.strip() or r.out.strip():
-        raise Violation(text, 'malformed flag list %r must be rejected with a diagnostic and exit 1, nothing executed' % text[:60], observed=[r.rc, r.out.decode(errors='replace')[-100:], r.err.decode(errors='replace')[-200:]])
+        raise Violation(text, 'malformed flag list / option %r must be rejected with a diagnostic and exit 1, nothing executed' % (text[:60],), observed=[r.rc, r.out.decode(errors='replace')[-100:], r.err.decode(errors='replace')[-200:]])
 
 
 def w_exact(ctx, wid, seed, examples):
@@ -184,7 +189,7 @@ def w_singles(ctx, wid, seed):
     ctx.case('default-flags', True, dict(cmd='--default-flags', listed=sorted(names)), 'default-flags')
     if names != set(STANDARD_NAMES) or r.rc != 0:
         ctx.violations.append(dict(campaign='default-flags', why='--default-flags lists %s, the standard set is %s' % (sorted(names), sorted(STANDARD_NAMES)), case=dict(cmd='--default-flags'), refails=3))
-    for t in MALFORMED:
+    for t in MALFORMED + BAD_OPTIONS:
         try:
             check_malformed(t, ctx)
         except Violation as v:
